@@ -183,6 +183,11 @@ def drives(quick):
     ]
     # contact pads overlapping the film (interior edges inside the terminal polygons)
     d += [dict(name="2term_thick_pads", dev="bar_thick", dev_kw=dict(max_edge_length=0.6), cur={"source": 3.0, "drain": -3.0}, A=0.2, opts=dict(dt_init=1e-2, adaptive=False))]
+    # a mesh of several thousand sites (whatever the library does differently above a size threshold, the balance is exact)
+    d += [dict(name="2term_6000_sites", dev="bar", dev_kw=dict(max_edge_length=0.09), T=2.5e-3, cur={"source": 3.0, "drain": -3.0}, A=0.3, opts=dict(dt_init=1e-4, dt_max=5e-4, adaptive=True, adaptive_window=2))]
+    # a mesh whose pure-Neumann matrix for mu is EXACTLY singular (SuperLU refuses it; repaired as 86941f9: one site is
+    # grounded): the balance holds in every cell, the grounded one included
+    d += [dict(name="exactly_singular_neumann_matrix", dev="union", dev_kw=dict(smooth=5), cur=None, A=0.6, opts=dict(dt_init=5e-3, adaptive=False))]
     d += [dict(name="3term_same_solver_solved_twice", dev="bar3", twice=True, cur={"source": 3.0, "drain": -1.0, "top": -2.0}, A=0.2, opts=dict(dt_init=1e-2, adaptive=False))]
     # "converted from the user's units": prefixes of the current unit and of the device's length unit that do not cancel
     d += [
@@ -220,11 +225,21 @@ def run_level(ctx, stop_first=False):
         else:
             ctx.count("solves_on_a_reused_device")
         dev = devs[dkey]
+        if dr["name"] == "exactly_singular_neumann_matrix":
+            import scipy.sparse.linalg as spla
+            from tdgl.finite_volume.operators import build_laplacian
+
+            em_ = dev.mesh.edge_mesh
+            try:
+                spla.factorized(build_laplacian(dev.mesh, weights=em_.dual_edge_lengths / em_.edge_lengths)[0])
+                ctx.count("exactly_singular_drive_was_factorisable_after_all")
+            except RuntimeError:
+                ctx.count("drives_on_the_grounded_solve_path")
         D = build_divergence(dev.mesh)
         cur = timedep_currents if dr["cur"] == "timedep" else (timedep4_currents if dr["cur"] == "timedep4" else dr["cur"])
         cu = dr["opts"].get("current_units", "uA")
         out = os.path.join(str(ctx.work), f"{dr['name']}.h5")
-        opts = runs.options(solve_time=0.12, save_every=3, output_file=out, progress_interval=10**9, **dr["opts"])
+        opts = runs.options(solve_time=dr.get("T", 0.12), save_every=3, output_file=out, progress_interval=10**9, **dr["opts"])
         try:
             if dr.get("twice"):
                 # the same TDGLSolver object solved a second time: the frames of the SECOND run are checked
